@@ -1025,6 +1025,7 @@ func c01Controls() []core.Mutant {
 	C := "compiler/compiler.go"
 	V := "vm/vm.go"
 	return []core.Mutant{
+		{Name: "refactor: jump-if handlers share one clause", File: "vm/vm.go", Old: "\t\tcase OpJumpIfTrue:\n\t\t\toffset := vm.arg()\n\t\t\tif vm.current().(bool) {\n\t\t\t\tvm.ip += int(offset)\n\t\t\t}\n\n\t\tcase OpJumpIfFalse:\n\t\t\toffset := vm.arg()\n\t\t\tif !vm.current().(bool) {\n\t\t\t\tvm.ip += int(offset)\n\t\t\t}\n", New: "\t\tcase OpJumpIfTrue, OpJumpIfFalse:\n\t\t\tdistance := int(vm.arg())\n\t\t\twanted := op == OpJumpIfTrue\n\t\t\tif vm.current().(bool) == wanted {\n\t\t\t\tvm.ip += distance\n\t\t\t}\n", Silent: true},
 		{Name: "right operand compiled before the left in the comparison `<`", File: C, Old: "\tcase \"<\":\n\t\tc.compile(node.Left)\n\t\tc.compile(node.Right)\n", New: "\tcase \"<\":\n\t\tc.compile(node.Right)\n\t\tc.compile(node.Left)\n", Rule: "R1.1", Construct: "BinaryNode/children in source order"},
 		{Name: "method arguments compiled before the receiver", File: C, Old: "func (c *compiler) MethodNode(node *ast.MethodNode) {\n\tc.compile(node.Node)\n\tfor _, arg := range node.Arguments {\n\t\tc.compile(arg)\n\t}\n", New: "func (c *compiler) MethodNode(node *ast.MethodNode) {\n\tfor _, arg := range node.Arguments {\n\t\tc.compile(arg)\n\t}\n\tc.compile(node.Node)\n", Rule: "R1.1", Construct: "MethodNode"},
 		{Name: "subtraction handler pops in source order", File: V, Old: "\t\tcase OpSubtract:\n\t\t\tb := vm.pop()\n\t\t\ta := vm.pop()", New: "\t\tcase OpSubtract:\n\t\t\ta := vm.pop()\n\t\t\tb := vm.pop()", Rule: "R1.3", Construct: "operator -/operands reach"},
